@@ -2494,8 +2494,11 @@ static void output_comment_multi(Chunk *pc)
          {
             doxygen_javadoc_indent_align = true;
 
-            std::string match(pc->GetStr().get().cbegin() + start_idx,
-                              pc->GetStr().get().cbegin() + end_idx);
+            // the last two characters close the comment, they are not part of a name or a description
+            const size_t body_end = pc->Len() - 2;
+
+            std::string  match(pc->GetStr().get().cbegin() + start_idx,
+                               pc->GetStr().get().cbegin() + end_idx);
 
             match.erase(std::remove_if(match.begin(),
                                        match.end(),
@@ -2553,7 +2556,7 @@ static void output_comment_multi(Chunk *pc)
                   cmt_idx = eat_line_whitespace(pc->GetStr(),
                                                 cmt_idx);
 
-                  while (  cmt_idx < pc->Len()
+                  while (  cmt_idx < body_end
                         && !unc_isspace(pc->GetStr()[cmt_idx])
                         && pc->GetStr()[cmt_idx] != ',')
                   {
@@ -2580,6 +2583,17 @@ static void output_comment_multi(Chunk *pc)
             }
             cmt_idx = eat_line_whitespace(pc->GetStr(),
                                           cmt_idx);
+
+            if (cmt_idx >= body_end)
+            {
+               // only the closer of the comment is left: the code below writes it (and the line) out
+               if (  unc_isspace(pc->GetStr()[cmt_idx - 1])
+                  && !unc_isspace(line.back()))
+               {
+                  line.append(' ');
+               }
+               continue;
+            }
             indent = int(doxygen_javadoc_continuation_indent) - int(line.size());
 
             while (indent-- > -line_size_before_indent)
@@ -2587,7 +2601,7 @@ static void output_comment_multi(Chunk *pc)
                line.append(' ');
             }
 
-            while (  cmt_idx < pc->Len()
+            while (  cmt_idx < body_end
                   && !unc_isspace(pc->GetStr()[cmt_idx]))
             {
                line.append(pc->Str()[cmt_idx++]);
